@@ -43,4 +43,16 @@ example : runOps true 3 reset 0 [.assign, .completed 2, .assign, .assign, .compl
 example : runOps false 3 reset 0 [.assign, .completed 2, .assign, .assign] = [(0, 0), (1, 2), (2, 1)] := by decide +kernel
 example : runOps true 3 reset 0 [.assign, .apply, .assign, .apply, .apply, .assign] = [(0, 0), (1, 1), (2, 2)] := by decide +kernel
 
+/-- Seen from a worker: during one call with `order_tasks`, worker `w` finds in its queue exactly the chunks `w, w+n, w+2n, …` of
+that call, in that order — whatever results arrive and whatever apply tasks are submitted meanwhile.  (A worker instance that
+reaches its lifespan is replaced under the same id and reads on from the same queue, so this is also what "across restarts" means
+here.) -/
+theorem queue_of_worker (n : Nat) (ops : List AOp) (w : Nat) (h : ∀ o ∈ ops, o ≠ .reset) :
+    ((runOps true n reset 0 ops).filter (·.2 == w)).map (·.1) =
+      (List.range (Mpire.Proofs.Dispatch.nAssign ops)).filter (· % n == w) :=
+  Mpire.Proofs.Dispatch.queue_of_worker n ops w h
+
+example : ((runOps true 3 reset 0 [.assign, .completed 2, .assign, .apply, .assign, .assign, .completed 0, .assign]).filter (·.2 == 1)).map (·.1) = [1, 4] := by
+  decide
+
 end Mpire.C16
